@@ -135,8 +135,13 @@ theorem box_filled_exact (W H x0 y0 x1 y1 : Int) (pg : Page) (attr : Nat)
 /-- `unpack (pack s) = s` for each sprite builder (packed pixels of 1, 2, 4 bits; 1 to 4 colour planes;
     the Tandy SCREEN 6 wrapper) and every rectangular sprite whose attributes are below `2^bpp` -/
 theorem sprite_roundtrip (b : Builder) (hb : supported b) (s : Rows) (w : Nat) (h : b.admits s w) :
-    b.unpack (b.pack s) = s :=
-  builder_rt b hb s w h
+    b.unpack (b.pack s) = s := by
+  simpa using builder_rt b hb s w h []
+
+/-- … also when the record is followed by other bytes, as in an array larger than the record -/
+theorem sprite_roundtrip_in_array (b : Builder) (hb : supported b) (s : Rows) (w : Nat) (h : b.admits s w)
+    (tail : Bytes) : b.unpack (b.pack s ++ tail) = s :=
+  builder_rt b hb s w h tail
 
 /-- the attribute bound is needed: a wider attribute is cut to `bpp` bits -/
 theorem sprite_roundtrip_needs_attribute_bound :
@@ -144,12 +149,13 @@ theorem sprite_roundtrip_needs_attribute_bound :
     (Builder.planed 2).unpack ((Builder.planed 2).pack [[5]]) = [[1]] := by decide
 
 /-- GET followed by PUT ,PSET at the same place leaves the page unchanged (any corner order in GET; screen
-    of at most 16383 × 65535 pixels so that the size record fits 16 bits; page attributes below `2^bpp`) -/
+    of at most 16383 × 65535 pixels so that the size record fits 16 bits; page attributes below `2^bpp`);
+    `tail` is whatever the array holds behind the record -/
 theorem get_put_pset_identity (b : Builder) (hb : supported b) (W H : Int)
     (hW : W ≤ 16383) (hH : H ≤ 65535) (pg : Page) (hpg : ∀ x y, pg x y < 2 ^ b.bpp)
     (xa ya xb yb : Int) (arrLen : Nat) (arr : Bytes)
-    (hget : getStmt b (View.full W H) pg xa ya xb yb arrLen = .ok arr) :
-    putStmt b (View.full W H) pg (min xa xb) (min ya yb) arr .pset = .ok pg := by
+    (hget : getStmt b (View.full W H) pg xa ya xb yb arrLen = .ok arr) (tail : Bytes) :
+    putStmt b (View.full W H) pg (min xa xb) (min ya yb) (arr ++ tail) .pset = .ok pg := by
   have ox : (View.full W H).offX = 0 := by simp [View.offX, View.full]
   have oy : (View.full W H).offY = 0 := by simp [View.offY, View.full]
   have hbpp := supported_bpp b hb
@@ -192,7 +198,7 @@ theorem get_put_pset_identity (b : Builder) (hb : supported b) (W H : Int)
         show wN < 65536 ∧ wN % 2 = 0
         simp only [Builder.widthFactor] at hwN
         omega
-  have hrt := sprite_roundtrip b hb _ _ hadm
+  have hrt := sprite_roundtrip_in_array b hb _ _ hadm tail
   unfold putStmt
   rw [← harr, hrt]
   simp only []
@@ -202,6 +208,58 @@ theorem get_put_pset_identity (b : Builder) (hb : supported b) (W H : Int)
   have e2 : min ya yb + (hN : Int) - 1 = max ya yb := by omega
   rw [e1, e2, if_neg (not_not.mpr hc0), if_neg (not_not.mpr hc1), ox, oy, Int.add_zero, Int.add_zero,
     put_get_same b.bpp pg _ _ wN hN hwpos hhpos]
+
+/-! ### histories: PUT paints what the array holds now -/
+
+/-- a refused statement changes neither the page nor any array -/
+theorem refused_changes_nothing (b : Builder) (v : View) (s : GState) (st : GStmt) (e : Nat)
+    (h : gstep b v s st = .error e) : grun b v s [st] = s := by
+  simp [grun, h]
+
+/-- GET into an array, then any number of statements that are refused (a GET into the same array whose record
+    does not fit it, a GET or PUT off the screen, …), then PUT ,PSET of the array at the place of the GET:
+    the page is the page before the GET, and the arrays are as the GET left them -/
+theorem get_refused_put_identity (b : Builder) (hb : supported b) (W H : Int)
+    (hW : W ≤ 16383) (hH : H ≤ 65535) (s s1 : GState) (hpg : ∀ x y, s.pg x y < 2 ^ b.bpp)
+    (a : Nat) (xa ya xb yb : Int)
+    (hget : gstep b (View.full W H) s (.get a xa ya xb yb) = .ok s1)
+    (mid : List GStmt) (hmid : ∀ st ∈ mid, ∃ e, gstep b (View.full W H) s1 st = .error e) :
+    grun b (View.full W H) s1 (mid ++ [.put a (min xa xb) (min ya yb) .pset]) = { s1 with pg := s.pg } ∧
+    s1.pg = s.pg := by
+  -- the refused statements
+  have hrun : ∀ (l : List GStmt) (rest : List GStmt), (∀ st ∈ l, ∃ e, gstep b (View.full W H) s1 st = .error e) →
+      grun b (View.full W H) s1 (l ++ rest) = grun b (View.full W H) s1 rest := by
+    intro l
+    induction l with
+    | nil => intro rest _; rfl
+    | cons st l ih =>
+      intro rest hl
+      obtain ⟨e, he⟩ := hl st List.mem_cons_self
+      show grun b (View.full W H) s1 (st :: (l ++ rest)) = _
+      simp only [grun, he]
+      exact ih rest (fun x hx => hl x (List.mem_cons_of_mem _ hx))
+  rw [hrun mid _ hmid]
+  -- the GET
+  simp only [gstep] at hget
+  split at hget
+  · cases hget
+  rename_i packed hpk
+  injection hget with hs1
+  subst hs1
+  have hput := get_put_pset_identity b hb W H hW hH s.pg hpg xa ya xb yb _ packed hpk
+    ((s.arrs a).drop packed.length)
+  refine ⟨?_, rfl⟩
+  simp only [grun, gstep, GState.setArr, if_true, writePrefix, hput]
+
+/-- after the array has been given other bytes (assignment, API, ERASE + DIM), PUT paints the picture
+    those bytes encode: the result is `putStmt` of the new bytes, whatever an earlier GET fetched -/
+theorem put_after_store (b : Builder) (v : View) (s : GState) (a : Nat) (bytes : Bytes) (x0 y0 : Int) (op : PutOp) :
+    (grun b v s [.store a bytes, .put a x0 y0 op]).pg =
+      match putStmt b v s.pg x0 y0 bytes op with
+      | .ok pg => pg
+      | .error _ => s.pg := by
+  simp only [grun, gstep, GState.setArr, if_true]
+  cases putStmt b v s.pg x0 y0 bytes op <;> rfl
 
 /-- PUT with XOR applied twice at the same place restores the page: every builder, every array, every
     viewport (the second PUT fits because the first did) -/
